@@ -303,6 +303,11 @@ func Delay[T any](duration time.Duration) func(Observable[T]) Observable[T] {
 			queue := []lo.Tuple2[context.Context, Notification[T]]{}
 
 			consume := func() {
+				// muNext is taken first and muQueue is never held while waiting for it:
+				// the teardown may run from inside destination.Next() and needs muQueue.
+				muNext.Lock()
+				defer muNext.Unlock()
+
 				muQueue.Lock()
 
 				if len(queue) == 0 {
@@ -313,7 +318,6 @@ func Delay[T any](duration time.Duration) func(Observable[T]) Observable[T] {
 				first := queue[0]
 				queue = queue[1:]
 
-				muNext.Lock()
 				muQueue.Unlock()
 
 				_ = processNotificationWithObserverAndContext(
@@ -321,8 +325,6 @@ func Delay[T any](duration time.Duration) func(Observable[T]) Observable[T] {
 					first.B,
 					destination,
 				)
-
-				muNext.Unlock()
 			}
 
 			produce := func(ctx context.Context, notif Notification[T]) {
